@@ -60,6 +60,20 @@ def correspondence(ck, tier):
         if (x[row, col], y[row, col]) != (mx, my):
             ck.disagree("K.coords", dict(shape=[rows, cols], origin=[orow, ocol], pixel=[row, col]),
                         f"index_coords: implementation {(x[row, col], y[row, col])}, model {(mx, my)}")
+    # … and without an origin (the pole is the centre pixel, Model/Polar `indexCoordsDefault`, Props/C19 `index_coords_default`)
+    lines, cases = [], []
+    for _ in range(n // 2):
+        rows, cols = (int(v) for v in rng.integers(1, 14, size=2))
+        row, col = int(rng.integers(0, rows)), int(rng.integers(0, cols))
+        lines.append(f"idx0 {rows} {cols} {row} {col}")
+        cases.append((rows, cols, row, col))
+    for (rows, cols, row, col), line in zip(cases, drive(lines)):
+        ck.count(("K.idx0", rows % 2, cols % 2, rows == cols), suite="K.coords")
+        x, y = polar.index_coords(np.zeros((rows, cols)))
+        mx, my = (int(v) for v in line.split()[1:]) if line.startswith("ok") else (None, None)
+        if (x[row, col], y[row, col]) != (mx, my):
+            ck.disagree("K.coords", dict(shape=[rows, cols], origin=None, pixel=[row, col]),
+                        f"index_coords without an origin: implementation {(x[row, col], y[row, col])}, model {(mx, my)}")
     # radial_intensity arithmetic on a stubbed polar image
     for _ in range(40 if tier == "quick" else 400):
         nr, nt = int(rng.integers(2, 9)), int(rng.integers(3, 12))
